@@ -243,6 +243,56 @@ def lie_case(H, g, L, api, left, method):
                         {'group': g, 'L': L, 'api': api})
 
 
+def matrix_case(H, L, api, left):
+    """the wrappers on PLAIN tensors: cumprod(_) folds a stack of square matrices with the matrix product (`@`) and cummul(_) with the
+    elementwise product (`*`), in the requested operand order.  Items are symbolic 2x2 real matrices (a non-commutative monoid under @)."""
+    import pypose as pp
+    from symx import terms as T
+    from symx.engine import explore
+    from .common import DT
+    name = 'C12/matrix/%s/L=%d/left=%s' % (api, L, left)
+    fn = getattr(pp, api)
+
+    def fold(mats):
+        acc, outs = None, []
+        for Mk in mats:
+            if acc is None:
+                acc = Mk
+            elif 'prod' in api:
+                acc = T.mm(Mk, acc) if left else T.mm(acc, Mk)
+            else:
+                acc = [[Mk[i][j] * acc[i][j] for j in range(2)] for i in range(2)]
+            outs.append(acc)
+        return outs
+
+    def prog(m):
+        gen = torch.Generator().manual_seed(70 + L)
+        x = torch.randn(L, 2, 2, dtype=DT, generator=gen)
+        xs = m.symbolic(x, 'm')
+        out = fn(x, 0, left=left)
+        return m.full_terms(out), xs, (out.data_ptr() == x.data_ptr())
+
+    def replay(model):
+        x = torch.tensor([float(model.get('m%d' % i, 0.3 + 0.1 * i)) for i in range(L * 4)], dtype=DT).view(L, 2, 2)
+        if not model:
+            x = torch.randn(L, 2, 2, dtype=DT)
+        out = fn(x.clone(), 0, left=left)
+        ref, acc = [], None
+        for k in range(L):
+            acc = x[k] if acc is None else ((x[k] @ acc if left else acc @ x[k]) if 'prod' in api else x[k] * acc)
+            ref.append(acc)
+        e = (out - torch.stack(ref)).abs().max().item()
+        return e > 1e-9, '%s(left=%s) on a stack of %d 2x2 matrices differs from the ordered %s fold by %.3g' % (api, left, L, 'matrix-product' if 'prod' in api else 'elementwise', e)
+
+    from .common import run_paths
+    for ctx, (out, xs, inplace) in run_paths(H, name, prog, max_paths=2):
+        mats = [T.mat(xs[4 * k:4 * k + 4], 2, 2) for k in range(L)]
+        want = [e_ for Mk in fold(mats) for row in Mk for e_ in row]
+        H.prove(name + '/in-place-iff-underscore', [], z3.BoolVal(bool(inplace) == api.endswith('_')), replay=replay, key='C12/matrix')
+        for i, (l, r) in enumerate(zip(out, want)):
+            H.same('%s/out[%d]' % (name, i), [], l, r, ctx, replay=replay, key='C12/matrix', timeout=10)
+
+
 def run(H):
     H.assumptions += ['the user operation is associative (free monoid = most general such operation)',
                       'exact real arithmetic for the LieTensor variants']
@@ -252,7 +302,7 @@ def run(H):
     H.bounds += ['lengths L in %s; L <= 65 with z3 sequences, larger L with the range algebra of contiguous products' % (
         '1..33 and the neighbours of every power of two up to 4096' if H.quick else '1..1025 and the neighbours of powers of two up to 4096'),
                  'views: contiguous, transposed, strided, column block',
-                 'tensor ranks 1..3 (rank 4 in thorough), every dim incl. negative', 'LieTensor variants: L <= %d' % (3 if H.quick else 5)]
+                 'tensor ranks 1..3 (rank 4 in thorough), every dim incl. negative', 'LieTensor variants: L <= %d' % (3 if H.quick else 5), 'plain-tensor wrappers: stacks of 2-3 (thorough 5) symbolic 2x2 matrices']
     for L in Ls:
         for api in ('cumops', 'cumops_'):
             free_monoid_case(H, L, (L,), 0, api, True, algebra=('seq' if L <= 65 else 'range'))
@@ -279,4 +329,13 @@ def run(H):
                 for left in (True, False):
                     for method in ((False, True) if L == 3 or not H.quick else (False,)):
                         lie_case(H, g, L, api, left, method)
+    # plain-tensor wrappers: matrix product for cumprod, elementwise product for cummul, both operand orders
+    for L in ((2, 3) if H.quick else (2, 3, 4, 5)):
+        for api in ('cumprod', 'cumprod_', 'cummul', 'cummul_'):
+            for left in (True, False):
+                try:
+                    matrix_case(H, L, api, left)
+                except Exception as e:
+                    import traceback; traceback.print_exc()
+                    H.engine_error('matrix/%s' % api, e)
     return H.finish(explanation=EXPLAIN)
